@@ -123,7 +123,7 @@ func obs(o FileObs) string {
 
 // mustFail reports whether the world model says the run has to fail for an enumerated reason.
 func mustFail(w *World) string {
-	if strings.HasPrefix(w.Class, "env:") {
+	if strings.HasPrefix(w.Class, "env:") || strings.HasSuffix(w.Class, "-dangling-params") {
 		return w.Class
 	}
 	switch w.OutKind {
@@ -303,6 +303,27 @@ func genC10World(src *choice.Src) *World {
 		o.LayoutFault = false
 	}
 	w := GenWorld(src, o)
+	if src.Chance("c10.manyerrors", 1, 30) {
+		// a configuration with exactly N errors of one kind (the count must not matter, not even 256)
+		n := choice.Pick(src, "c10.nerrors", []int{2, 255, 256, 257, 512})
+		var sb strings.Builder
+		sb.WriteString("parameters:\n")
+		for i := 0; i < n; i++ {
+			fmt.Fprintf(&sb, "  p%d: \"%%missing%d%%\"\n", i, i)
+		}
+		w.Files = []InFile{{Path: "many-errors.yaml", Content: sb.String()}}
+		w.Patterns = []string{"many-errors.yaml"}
+		w.Dirs = nil
+		w.Cfg = nil
+		w.Class = fmt.Sprintf("defect:%d-dangling-params", n)
+		var fl []string
+		for _, f := range w.Flags {
+			if f != "--ignore-missing-params" {
+				fl = append(fl, f)
+			}
+		}
+		w.Flags = fl
+	}
 	if w.PreOut == nil && w.OutKind == "file" && src.Chance("c10.preout", 1, 2) {
 		w.PreOut = &InFile{Path: w.Out, Content: "// SENTINEL\npackage old\n", Mode: 0644}
 	}
@@ -408,6 +429,42 @@ func CheckC10(t Target, src *choice.Src, st *Stats) *Violation {
 		}
 		if c, d := judgeFaulted(t, w, ref, fw, fr, st); c != "" {
 			return c10Violation(fmt.Sprintf("%s:%s:%s", f.OpKind, f.Kind, c), fmt.Sprintf("fault %+v on op %d (%s %s)\n%s\n%s", f, f.At, ref.Ops[f.At].Kind, ref.Ops[f.At].Path, d, tail(fr.Stdout, 10)), w, fw)
+		}
+		// second order: operations that exist only because this fault fired (a fallback path, a
+		// clean-up) get the complete fault treatment as well
+		if f.OpKind == "corrupt" {
+			continue
+		}
+		known := map[string]int{}
+		for _, o := range ref.Ops {
+			known[o.Kind+"\x00"+o.Path]++
+		}
+		for _, op2 := range fr.Ops {
+			k := op2.Kind + "\x00" + op2.Path
+			if known[k] > 0 { // an operation the fault-free run performs too (possibly at another index)
+				known[k]--
+				continue
+			}
+			if op2.Seq <= f.At {
+				continue
+			}
+			for _, k2 := range faultKinds[op2.Kind] {
+				f2 := simrt.Fault{At: op2.Seq, OpKind: op2.Kind, Kind: k2}
+				fw2 := w.Clone()
+				fw2.Faults = []simrt.Fault{f, f2}
+				fr2 := Exec(t, fw2)
+				if st != nil {
+					st.note(fw2, fr2)
+					st.Probes["second-order-fault-runs"]++
+				}
+				if len(fr2.Fired) < 2 {
+					continue
+				}
+				if c, d := judgeFaulted(t, w, ref, fw2, fr2, st); c != "" {
+					return c10Violation(fmt.Sprintf("%s:%s+%s:%s:%s", f.OpKind, f.Kind, f2.OpKind, f2.Kind, c),
+						fmt.Sprintf("fault %+v, then %+v on an operation that only exists after the first fault (%s %s)\n%s\n%s", f, f2, op2.Kind, op2.Path, d, tail(fr2.Stdout, 10)), w, fw2)
+				}
+			}
 		}
 	}
 	// ---- pass 3: seeded multi-fault plans, biased to land inside later operations
